@@ -38,7 +38,7 @@ def gen_plan(rng, tier):
             sub = rng.choice(["full", "full", "prefix", "tail", "interleaved", "random", "fewer_reps"])
             members.append({"seed": rng.getrandbits(32), "subset": sub, "kind": rng.choice(["real", "real", "real", "int", "int_zero_free", "mean_hit"]),
                             "cov": rng.choice([None, None, "covA", "sys_b", "Zc"]), "coefs": [rng.choice([1.0, 0.5, -2.0]) for _ in ens], "mag": rng.choice([1.0, 1.0, 1e-3, 1e6]),
-                            "nonlinear": rng.random() < 0.3})
+                            "nonlinear": rng.random() < 0.3, "frozen": rng.randrange(8) if rng.random() < 0.2 else None})
         if rng.random() < 0.4:
             for m in members:
                 if m["cov"]:
@@ -93,7 +93,9 @@ def build_member(group, m, pobs=False):
             x = [float(rnd.choice([1, 2, 3, 3, 3, 4, 5])) for _ in keep]
         else:
             x = [m["mag"] * (1.0 + 0.3 * rnd.gauss(0, 1)) for _ in keep]
-        if len(set(x)) == 1:
+        if m.get("frozen") is not None and len(chains) - (drop is not None) > 1 and ci == [k for k in range(len(chains)) if k != drop][m["frozen"] % (len(chains) - (drop is not None))]:
+            x = [m["mag"] * 2.5 if m["kind"] == "real" else 7.0] * len(keep)      # a chain frozen at one value (other chains fluctuate)
+        elif len(set(x)) == 1:
             x[0] += 1.0
         byens.setdefault(ch["name"].split("|")[0], []).append((np.array(x), ch["name"], [full[k] for k in keep]))
     tot = None
@@ -240,7 +242,10 @@ def do_export(ctx, pe, op, plan, d, clock, faults, files, partner):
     if sep in ("int", "str"):
         styles = set(c["style"] for c in group["chains"])
         enslen = set(len(c["name"].split("|")[0]) for c in group["chains"])
-        if len(styles) > 1 or len(enslen) > 1 or any(style in c["name"].split("|")[0] for c in group["chains"]):
+        # "str": every occurrence of the marker gets the separator, names without the marker stay as stored -- defined for
+        # mixed naming styles too; only a marker inside an ensemble name (two separators in one name) is avoided
+        mixed_ok = sep == "str" and len(styles) > 1 and not any(c["name"].replace("|", "").count(style) > 1 for c in group["chains"])
+        if (len(styles) > 1 and not mixed_ok) or (len(enslen) > 1 and sep == "int") or any(style in c["name"].split("|")[0] for c in group["chains"]):
             sep = "true" if fmt == "dobs" else "int"
             if fmt == "pobs" and (len(enslen) > 1):
                 return
